@@ -26,7 +26,7 @@ RULE = ("cases = enumerated (not sampled) cross product of: option --method (abs
         "0.0.0.0, bare port, port equal to the first DNS search port) x DNS forms (off, --dns with v4/v6/both/no resolvers, "
         "--ns-hosts v4/v6, --ns-hosts equal to a resolver, scoped link-local / IPv4-mapped / compressed IPv6 name-server texts in resolv.conf and --ns-hosts, read by the real resolvconf_nameservers / family_ip_tuple) x --to-ns x subnets per family (none/one/the listen address itself, with and without a port/both families) x excludes (unrelated; entries whose IP equals an active listen address - default loopback or the --listen address of each family - plain, with another mask, with a port, with a port range, alone and combined with unrelated entries) x "
         "-N x user/group (absent, known, unknown, resolving to numeric id 0 or 1, for every method) x bind-oracle patterns (all free, first ports busy per protocol/family, "
-        "explicit port busy, EACCES, EADDRNOTAVAIL on IPv6, everything busy, all but the last port busy, all UDP busy); "
+        "explicit port busy, TCP-only / UDP-only / both busy per family at the first candidate and at the explicit --listen ports for every method, EACCES, EADDRNOTAVAIL on IPv6, everything busy, all but the last port busy, all UDP busy); "
         "quick tier = corpus of boundary configurations (incl. those of findings F11-F14, F21, F22) "
         "+ a seeded slice of the product, thorough = the whole product; a case is non-trivial when it left the default path "
         "(any option beyond one IPv4 subnet, or a busy port); distinct = distinct canonical configuration line")
@@ -609,6 +609,38 @@ KEYS = {
 }
 
 
+SEARCH_HI, SEARCH_LO = 12300, 9001      # the candidate ports of both searches (property text: 12300 downwards)
+
+
+def bind_error_unexplained(case, res):
+    """A bind OSError that ends start-up must be explained by the environment: its errno is one a bind
+    rule of this case answers with, and for EADDRINUSE the search had no way out -- an explicitly given
+    --listen port is busy for some protocol/family, or fewer than three candidate ports are free for
+    every protocol and family (the redirectors need one, the DNS listener another that is neither of
+    the redirector ports).  Returns a text, or None when the error is explained.  Deliberately
+    conservative: it never looks at what the model says."""
+    w = World(case)
+    name = {errno.EADDRINUSE: 'inuse', errno.EADDRNOTAVAIL: 'notavail', errno.EACCES: 'acces'}.get(res['errno'])
+    if name is None or not any(r[4] == name for r in case['bind']):
+        return 'no bind rule of this environment answers %s' % errno.errorcode.get(res['errno'], res['errno'])
+    if name != 'inuse':
+        return None
+
+    def all_free(port):
+        return all(w.oracle(pr, fam, port) == 'ok' for pr in ('tcp', 'udp') for fam in (4, 6))
+    for (_f, _ip, port) in (case['listen'] or []):
+        if port and not all_free(port):
+            return None                  # an explicit port is busy: every attempt must fail
+    free = 0
+    for port in range(SEARCH_HI, SEARCH_LO - 1, -1):
+        if all_free(port):
+            free += 1
+            if free >= 3:
+                return ('EADDRINUSE although the explicit listen ports are free and candidate ports (e.g. %d) '
+                        'are free for TCP and UDP on both families' % port)
+    return None
+
+
 def judge(case, res, docs):
     """All violations of the property in one run: list of (key, expected, observed)."""
     v = []
@@ -618,6 +650,13 @@ def judge(case, res, docs):
                   'start-up ends with a fatal message or a plan, never an internal error', res['trace']))
     elif k in ('return', 'exit'):
         v.append(('C15:internal:unexpected-exit', 'fatal message or plan', repr(res)))
+    elif k == 'oserror':
+        why = bind_error_unexplained(case, res)
+        if why:
+            v.append(('C15:oserror:bind-error-not-explained-by-environment',
+                      'start-up ends with a plan bound to free ports or a fatal message; a bind error is re-raised '
+                      'only when the environment leaves no way out (explicit port busy / every candidate busy)',
+                      '%s; %s' % (res['trace'], why)))
     elif k == 'fatal' and fatal_class(res['msg']).startswith('other:'):
         v.append(('C15:fatal:unknown-message', 'one of the explanatory fatal messages', res['msg']))
     elif k == 'usage' and usage_class(res['msg']) == 'method-choice' and case['meth'] in docs:
@@ -720,6 +759,29 @@ BIND_LIGHT = {
     'acces4': [('tcp', 4, 0, 65535, 'acces')],
     'notavail6': [('tcp', 6, 0, 65535, 'notavail'), ('udp', 6, 0, 65535, 'notavail')],
 }
+# busy-port environments per protocol / family, at the first candidate of the search and at the
+# explicit --listen ports (P1, P2, PD, 12300 are the explicit ports of the LISTEN forms)
+def _at(ports, protos, fams):
+    return [(pr, f, p, p, 'inuse') for p in ports for pr in protos for f in fams]
+
+
+_FIRST, _EXPL = (12300,), (P1, P2, PD)
+BIND_BUSY = {
+    'first:tcp4': _at(_FIRST, ('tcp',), (4,)),
+    'first:tcp6': _at(_FIRST, ('tcp',), (6,)),
+    'first:udp4': _at(_FIRST, ('udp',), (4,)),
+    'first:udp6': _at(_FIRST, ('udp',), (6,)),
+    'first:udp46': _at(_FIRST, ('udp',), (4, 6)),
+    'first:tcp+udp4': _at(_FIRST, ('tcp', 'udp'), (4,)),
+    'first:tcp+udp46': _at(_FIRST, ('tcp', 'udp'), (4, 6)),
+    'first2:udp4,second:tcp6': _at((12300, 12299), ('udp',), (4,)) + _at((12298,), ('tcp',), (6,)),
+    'explicit:tcp4': _at(_EXPL, ('tcp',), (4,)),
+    'explicit:udp4': _at(_EXPL, ('udp',), (4,)),
+    'explicit:udp6': _at(_EXPL, ('udp',), (6,)),
+    'explicit:tcp+udp46': _at(_EXPL, ('tcp', 'udp'), (4, 6)),
+}
+BIND_LIGHT_ALL = dict(BIND_LIGHT)
+BIND_LIGHT_ALL.update(BIND_BUSY)
 BIND_HEAVY = {
     'all-busy': [('tcp', 4, 0, 65535, 'inuse')],
     'all-but-last': [('tcp', 4, 9002, 65535, 'inuse')],
@@ -798,7 +860,7 @@ def build(m, dis6, lf, df, sf, bf, tons=None, exc=(), an=None, ug='none', heavy=
     kw = dict(DNS[df])
     kw.update(UG[ug])
     return mkcase(meth=m[0], helper=m[1], dis6=dis6, listen=LISTEN[lf], inc=inc, exc=exc, an=an, tons=tons,
-                  bind=(BIND_HEAVY if heavy else BIND_LIGHT)[bf], **kw), \
+                  bind=(BIND_HEAVY if heavy else BIND_LIGHT_ALL)[bf], **kw), \
         '%s/%s|%s|%s|%s|%s|%s' % (m[0] or '-', m[1], lf, df, sf, bf, xlabel)
 
 
@@ -834,6 +896,12 @@ def product_nstext():
     """Name-server texts in the spellings the family classification must get right."""
     for m, dis6, lf, df, sf in itertools.product(METHODS, (0, 1), LISTEN_SMALL + ['v4'], NS_TEXT, ('v4', 'both')):
         yield build(m, dis6, lf, df, sf, 'free')
+
+
+def product_busy():
+    """Busy ports per protocol and family at the first candidate / at the explicit ports, every method."""
+    for m, dis6, lf, df, bf in itertools.product(METHODS, (0, 1), LISTEN, ('off', 'dns46'), BIND_BUSY):
+        yield build(m, dis6, lf, df, 'both', bf)
 
 
 def product_heavy():
@@ -899,6 +967,14 @@ def corpus():
             for df in NS_TEXT:
                 out.append(build(m, dis6, 'none', df, 'v4', 'free'))
     out.append(build(nat, 0, 'v4', 'dns6scoped', 'both', 'free'))
+    # busy ports per protocol/family, every method (seeded change M-C15-P: UDP-only busy at the first port)
+    for m in METHODS:
+        for bf in ('first:udp4', 'first:udp6', 'first:tcp+udp46'):
+            out.append(build(m, 0, 'none', 'dns4', 'v4', bf))
+    for bf in BIND_BUSY:
+        out.append(build(tpx, 0, 'both:v4port', 'dns46', 'both', bf))
+        out.append(build(tpx, 0, 'both:ports', 'off', 'both', bf))
+        out.append(build(nat, 0, 'v4:port', 'dns4', 'v4', bf))
     c, _ = build(nat, 0, 'none', 'off', 'v4', 'free')
     c['remote'] = 0
     out.append((c, 'no-remote'))
@@ -909,7 +985,7 @@ def gen_cases(ctx):
     cases = list(corpus())
     rng = ctx.rng
     if ctx.thorough:
-        cases += list(product_core()) + list(product_rest()) + list(product_coincide()) + list(product_ids()) + list(product_nstext()) + list(product_heavy())
+        cases += list(product_core()) + list(product_rest()) + list(product_coincide()) + list(product_ids()) + list(product_nstext()) + list(product_busy()) + list(product_heavy())
     else:
         frac_core, frac_rest, n_heavy = 0.03 * ctx.boost, 0.02 * ctx.boost, 12 * ctx.boost
         cases += [x for x in product_core() if rng.random() < frac_core]
@@ -917,6 +993,7 @@ def gen_cases(ctx):
         cases += [x for x in product_coincide() if rng.random() < frac_core]
         cases += [x for x in product_ids() if rng.random() < frac_core]
         cases += [x for x in product_nstext() if rng.random() < frac_core]
+        cases += [x for x in product_busy() if rng.random() < frac_core]
         heavy = list(product_heavy())
         cases += rng.sample(heavy, min(n_heavy, len(heavy)))
     return cases
